@@ -467,7 +467,8 @@ def run(tier, seed):
     chk.add_stream("frames", len(lines), distinct, samples, distribution={"streams": nstreams, "variants_per_stream": 3, "frames_judged": nframes})
     # ---- the same through the binary (its-stave target needs a stave filter): verdict lines + alpide_stats in the statistics file
     tmp = core.scratch_dir("c13")
-    cj = [c for c in cases if c["custom"] is None][: (40 if deep else 8)]
+    cj = [c for c in cases if c["custom"] is None]
+    cj = ([c for c in cj if "bc-lane-differs" in c["kinds"]][: (10 if deep else 3)] + [c for c in cj if "bc-lane-differs" not in c["kinds"]])[: (40 if deep else 8)]
 
     def work(c):
         v = c["variants"][2]
@@ -475,16 +476,32 @@ def run(tier, seed):
         path = os.path.join(tmp, "c%d.raw" % c["s"])
         sp = os.path.join(tmp, "c%d.json" % c["s"])
         open(path, "wb").write(data)
-        rc, so, se, dt = core.run_cli([path, "check", "all", "its-stave", "-S", sp, "-D", "json"], timeout=120)
+        rc, so, se, dt = core.run_cli([path, "check", "all", "its-stave", "-S", sp, "-D", "json", "-E", "9"], timeout=120)
         st = None
         if os.path.exists(sp):
             st = json.load(open(sp))
-        return rc, se.decode("utf8", "replace"), st
+        # the same run with the messages muted: the option hides texts, the verdict (error total, codes, staves, exit status) stays
+        spm = os.path.join(tmp, "c%dm.json" % c["s"])
+        rcm, _so, sem, _dt = core.run_cli([path, "check", "all", "its-stave", "-S", spm, "-D", "json", "-E", "9", "-m"], timeout=120)
+        stm = json.load(open(spm)) if os.path.exists(spm) else None
+        return rc, se.decode("utf8", "replace"), st, (rcm, sem.decode("utf8", "replace"), stm)
     ncli = 0
-    for c, (rc, se, st) in zip(cj, core.par_map(work, cj)):
+    def verdict(rc_, st_):
+        e = (st_ or {}).get("error_stats") or {}
+        # (the list of unique codes is not compared: the lane sub-codes E9003..E9005 are read from the context text, which -m drops)
+        return {"exit": rc_, "total_errors": e.get("total_errors"), "frame_codes": sorted(x for x in (e.get("unique_error_codes") or []) if len(str(x)) <= 3),
+                "staves": sorted(str(x) for x in (e.get("staves_with_errors") or []))}
+    nmuted = 0
+    for c, (rc, se, st, (rcm, sem, stm)) in zip(cj, core.par_map(work, cj)):
         if st is None or "panicked at" in se:
             continue
         ncli += 1
+        if stm is not None and "panicked at" not in sem:
+            nmuted += 1
+            if verdict(rc, st) != verdict(rcm, stm):
+                chk.spec_violations.append({"stream": "cli-stave", "layer": c["layer"], "kinds": c["kinds"], "expected": verdict(rc, st), "reported": verdict(rcm, stm),
+                                            "what": "the verdict of the run (error total, frame-level codes, staves with errors, exit status under -E 9) changes when the messages are muted (-m)",
+                                            "input_hex": b"".join(r + p for _o, r, p in c["variants"][2]["cd"]).hex().upper()[:8000]})
         base0 = c["variants"][2]["cd"][0][0]
         rf = (st.get("alpide_stats") or {}).get("readout_flags")
         exp = [0] * 7
@@ -496,7 +513,7 @@ def run(tier, seed):
             chk.spec_violations.append({"stream": "cli-stave", "layer": c["layer"], "kinds": c["kinds"], "expected": exp, "reported": got,
                                         "what": "alpide_stats of the statistics file differ from the counts over the chip trailers",
                                         "input_hex": b"".join(r + p for _o, r, p in c["variants"][2]["cd"]).hex().upper()[:8000]})
-    chk.add_stream("cli-stave", ncli, set(), [], distribution={"runs": len(cj)})
+    chk.add_stream("cli-stave", ncli, set(), [], distribution={"runs": len(cj), "muted_reruns_compared": nmuted})
     shutil.rmtree(tmp, ignore_errors=True)
     chk.cov["rule"] = ("streams of 1..5 readout frames of one stave (layers 0..6; IB groups, the two ML and OL lane sets), each frame planned as: legal / lane order shuffled / a lane "
                        "missing / an extra lane / wrong IB group / one lane with another bunch counter / one chip with another bunch counter / wrong IB chip id / chip count / "
@@ -505,6 +522,6 @@ def run(tier, seed):
                        "look like headers, trailers, protocol extensions, idle), filler words and idle bytes, lane words interleaved at random, frames split over packets by the "
                        "HBF builder, data formats 0 and 2. Judged per frame: codes E72..E75/E701 with lane/sub-check tags at the frame's start offset = documented verdict "
                        "(lane-count rule against the lanes that announced FATAL in EARLIER frames; frames that still carry such a lane are not judged on E72/E73), readout-flag "
-                       "counters = counts over the trailers, the three encodings agree, model `linkt` = real LinkValidator token by token; plus alpide_stats through the binary. "
+                       "counters = counts over the trailers, the three encodings agree, model `linkt` = real LinkValidator token by token; plus alpide_stats through the binary, and the same binary run with -m: same error total, codes, staves, exit status. "
                        "distinct = (barrel, frame kind, expected codes, fatal lanes known, encoding style)")
     return core.finish(chk, TRUSTED)
